@@ -339,3 +339,5 @@ def run_case(case, res):
     res.nontrivial = any(0 < k for k in trace)
     res.count("interruption_points", len(trace))
     res.sample = {"config": cfg, "function": fname, "M": M, "points_U": pts_u, "interrupted_at": trace}
+
+RULE += (" " + 'The uninterrupted run carries a depth guard (a case that reaches floating-point resolution is skipped); vector-valued integrands; Clenshaw-Curtis local grids with the automatic extend / split decision.')
